@@ -41,9 +41,9 @@ package builder
 //@   requires [pairs] len(ranges) % 2 == 0
 //@   requires [classes] forall k int :: 0 <= k && k < len(unicodeClasses) ==> ClassKnown(unicodeClasses[k])
 //@   pure
-//@   ensures [ic-chars C15] (ignoreCase ==> forall k int :: 0 <= k && k < len(chars) && chars[k] < 128 ==> basicLatinChars[chars[k]] && basicLatinChars[toLower(chars[k])] && basicLatinChars[toUpper(chars[k])])
-//@   ensures [ic-ranges C15] (ignoreCase ==> forall k int, m rune :: 0 <= k && 2*k < len(ranges) && ranges[2*k] <= m && m <= ranges[2*k+1] && m < 128 ==> basicLatinChars[m] && basicLatinChars[toLower(m)] && basicLatinChars[toUpper(m)])
-//@   ensures [table=general C15] forall r rune :: 0 <= r && r < 128 ==> basicLatinChars[r] == GenHit(chars, ranges, unicodeClasses, ignoreCase, r)
+//@   ensures [ic-chars C15 C01] (ignoreCase ==> forall k int :: 0 <= k && k < len(chars) && chars[k] < 128 ==> basicLatinChars[chars[k]] && basicLatinChars[toLower(chars[k])] && basicLatinChars[toUpper(chars[k])])
+//@   ensures [ic-ranges C15 C01] (ignoreCase ==> forall k int, m rune :: 0 <= k && 2*k < len(ranges) && ranges[2*k] <= m && m <= ranges[2*k+1] && m < 128 ==> basicLatinChars[m] && basicLatinChars[toLower(m)] && basicLatinChars[toUpper(m)])
+//@   ensures [table=general C15 C01] forall r rune :: 0 <= r && r < 128 ==> basicLatinChars[r] == GenHit(chars, ranges, unicodeClasses, ignoreCase, r)
 //@   loop#1 invariant [chars C15] !ignoreCase ==> forall r rune :: 0 <= r && r < 128 ==> basicLatinChars[r] == (exists k int :: 0 <= k && k < idx && chars[k] == r)
 //@   loop#1 invariant [ic-chars C15] (ignoreCase ==> forall k int :: 0 <= k && k < idx && chars[k] < 128 ==> basicLatinChars[chars[k]] && basicLatinChars[toLower(chars[k])] && basicLatinChars[toUpper(chars[k])])
 //@   loop#2 invariant [ic C15] (ignoreCase ==> forall k int :: 0 <= k && k < len(chars) && chars[k] < 128 ==> basicLatinChars[chars[k]] && basicLatinChars[toLower(chars[k])] && basicLatinChars[toUpper(chars[k])]) && (ignoreCase ==> forall k int, m rune :: 0 <= k && 2*k < i && ranges[2*k] <= m && m <= ranges[2*k+1] && m < 128 ==> basicLatinChars[m] && basicLatinChars[toLower(m)] && basicLatinChars[toUpper(m)])
